@@ -96,3 +96,119 @@ def rf12(run, units=('mir', 'gen', 'c2mir')):
             run.violation(rule, eqf, 'descriptor field %s' % fld, '_MIR_get_ff_call reads arg_descs[i].%s but ff_interface_eq does not compare '
                           'it' % fld, line=eqf.line)
     return n
+
+
+# ---------------------------------------------------------------------------------------------
+# RF12b: the trampoline cache key separates every pair of types the trampoline generator treats differently
+# ---------------------------------------------------------------------------------------------
+
+def _type_domain(tu):
+    types = tu.enum('MIR_type_t')
+    tv = dict(types)
+    dom = [(n, v) for n, v in types if n not in ('MIR_T_UNDEF', 'MIR_T_BOUND', 'MIR_T_BLK')]
+    dom += [('MIR_T_BLK+%d' % k, tv['MIR_T_BLK'] + k) for k in range(0, tv['MIR_T_RBLK'] - tv['MIR_T_BLK'])]
+    seen, out = set(), []
+    for n, v in dom:
+        if v not in seen:
+            seen.add(v)
+            out.append((n, v))
+    return out
+
+
+def rf12b(run):
+    from lib import enumflow as EF
+    rule = 'RF12b'
+    run.rule(rule, 'FFI trampoline cache: for every pair of MIR types that some test or call argument of the trampoline generator '
+                   '(_MIR_get_ff_call) tells apart — separately for argument types and result types — the comparison in '
+                   'ff_interface_eq tells them apart too (both evaluated over the finite type domain); otherwise two prototypes '
+                   'would share a trampoline built for only one of them')
+    tu = run.tu('mir')
+    preds = EF.Predicates(tu)
+    ff = tu.func('_MIR_get_ff_call')
+    eqf = tu.func('ff_interface_eq')
+    run.functions_analysed.update({('mir', ff.name), ('mir', eqf.name)})
+    dom = _type_domain(tu)
+
+    def mentions(n, key):
+        return any(F.src(x) == key for x in F.walk(n) if x['k'] in ('DeclRefExpr', 'ArraySubscriptExpr', 'MemberExpr'))
+
+    def probes(key):
+        """maximal expressions of the generator that mention the type expression `key`: conditions and call arguments"""
+        out = []
+        for x in ff.walk():
+            if x['k'] in ('IfStmt', 'ConditionalOperator', 'WhileStmt'):
+                c = x['c'][0]
+                if c is not None and mentions(c, key):
+                    out.append(c)
+            if x['k'] == 'CallExpr':
+                for a in F.call_args(x):
+                    if mentions(a, key) and F.strip(a)['k'] not in ('DeclRefExpr',):
+                        out.append(a)
+        return out
+
+    def vector(key, v):
+        return tuple(preds.eval(p, {key: v}, frozenset()) for p in probes(key))
+    # how the generator names the argument type and the result type
+    arg_key, res_key = 'type', None
+    for x in ff.walk():
+        if x['k'] == 'ArraySubscriptExpr' and F.src(F.strip(x['c'][0])) == 'res_types':
+            res_key = F.src(x)
+    if res_key is None or not probes(arg_key) or not probes(res_key):
+        raise F.AnalysisBroken('_MIR_get_ff_call: type tests on `type` / `res_types[i]` not found')
+    # comparisons of the key
+    conds = []
+    for x in eqf.walk():
+        if x['k'] == 'IfStmt':
+            c = x['c'][0]
+            t = F.src(c)
+            if 'i1->' in t and 'i2->' in t:
+                conds.append(c)
+    memcmp_res = any('memcmp' in F.src(c) and 'res_types' in F.src(c) for c in conds)
+
+    def key_differs(kind, v1, v2):
+        if kind == 'res' and memcmp_res:
+            return v1 != v2
+        any_known = False
+        for c in conds:
+            t = F.src(c)
+            if kind == 'res' and 'res_types' not in t:
+                continue
+            if kind == 'arg' and '.type' not in t:
+                continue
+            env = {}
+            for x in F.walk(c):
+                if x['k'] in ('ArraySubscriptExpr', 'MemberExpr'):
+                    sx = F.src(x)
+                    if kind == 'res' and x['k'] == 'ArraySubscriptExpr' and 'res_types' in sx:
+                        env[sx] = v1 if sx.startswith('i1->') else v2
+                    if kind == 'arg' and x['k'] == 'MemberExpr' and x['n'] == 'type':
+                        env[sx] = v1 if sx.startswith('i1->') else v2
+            r = preds.eval(c, env, frozenset())
+            if r is None:
+                continue
+            any_known = True
+            if r:
+                return True
+        return False if any_known else None
+    n = 0
+    for kind, key in (('arg', arg_key), ('res', res_key)):
+        vecs = {v: vector(key, v) for nme, v in dom}
+        bad = None
+        for i, (n1, v1) in enumerate(dom):
+            for n2, v2 in dom[i + 1:]:
+                if vecs[v1] == vecs[v2]:
+                    continue
+                d = key_differs(kind, v1, v2)
+                if d is None:
+                    raise F.AnalysisBroken('ff_interface_eq: the %s type comparison cannot be evaluated for (%s, %s)' % (kind, n1, n2))
+                n += 1
+                run.ob(rule, (kind, n1, n2), d, {'position': 'argument' if kind == 'arg' else 'result', 'types': '%s / %s' % (n1, n2),
+                                                'generator treats them differently': True, 'key separates them': d})
+                if not d and bad is None:
+                    bad = (n1, n2)
+        if bad:
+            run.violation(rule, eqf, '%s types %s and %s' % ('argument' if kind == 'arg' else 'result', bad[0], bad[1]),
+                          'ff_interface_eq treats %s types %s and %s as the same key although _MIR_get_ff_call generates different code for '
+                          'them: the second prototype reuses a trampoline that moves the value the wrong way'
+                          % ('argument' if kind == 'arg' else 'result', bad[0], bad[1]), line=eqf.line)
+    return n
